@@ -132,6 +132,70 @@ def _subsets(mechs):
             yield sub
 
 
+class Judge:
+    """Oracle (float64 + longdouble), class flags and as-built models for ONE state of a lens, and the
+    comparison of the library's per-surface terms / sums with them."""
+
+    def __init__(self, rec, inp, axial_only, finite):
+        self.rec, self.inp = rec, inp
+        self.o = SE.surface_terms(**inp)
+        self.ol = SE.surface_terms(**inp, dtype=np.longdouble)
+        # class flags: which known-defect mechanisms could act on this lens
+        has_mirror = any(inp['mirror'])
+        self.dispersive = bool(np.any(inp['dn'] != 0))
+        # a dispersive interface (Delta(dn/n) != 0) other than the first surface of an infinite-object lens:
+        # only there can the height of the previous record differ from the height at the surface
+        ddn = inp['dn'][1:-1] / inp['n'][1:-1] - inp['dn'][:-2] / inp['n'][:-2]
+        slip = bool(np.any(ddn[1:] != 0) or (finite and ddn[0] != 0))
+        self.mech_mono = [m for m, on in (('mirror-zero-seidel', has_mirror),
+                                          ('zero-field-invariant-guard', axial_only)) if on]
+        self.mech_col = [m for m, on in (('mirror-zero-seidel', has_mirror),
+                                         ('chromatic-height-index-slip', slip)) if on]
+        self._cache = {}
+
+    def asbuilt(self, sub):
+        key = tuple(sorted(sub))
+        if key not in self._cache:
+            self._cache[key] = SE.surface_terms(**self.inp, model=tuple(MECH[m] for m in key))
+        return self._cache[key]
+
+    def versus_oracle(self, clause, got, key, mechs, skey=None, what=''):
+        """library value vs oracle; a mismatch is keyed by the smallest set of applicable known
+        mechanisms whose as-built prediction reproduces the library's numbers."""
+        rec, o, ol = self.rec, self.o, self.ol
+        skey = skey or 'scale_' + key
+        want = _arr(o[key])
+        floor = max(1e-300, 1e-13 * float(np.max(o[skey])) if np.size(o[skey]) else 1e-300)
+        scale = np.maximum(_arr(o[skey]), floor)
+        cond = float(np.max(np.abs(_arr(o[key]) - _arr(ol[key])) / scale))
+        tol = 1e-9 + 1e3 * cond
+        got = _arr(got)
+        r, same = rec.resid(got, want, scale)
+        alt, flags = None, ()
+        if not (same and r <= tol) and mechs:
+            flags = tuple(mechs)
+            alt = _arr(self.asbuilt(mechs)[key])
+            for sub in _subsets(mechs):
+                cand = _arr(self.asbuilt(sub)[key])
+                ra, sa = rec.resid(got, cand, scale)
+                if sa and ra <= tol:
+                    alt, flags = cand, tuple(sub)
+                    break
+        rec.close(clause, got, want, tol, scale=scale, alt=alt, flags=flags,
+                  msg=f'{clause}: {what}library value differs from the classical surface contributions (Welford) '
+                      f'evaluated on the lens\'s own rays')
+
+    def compare_all(self, got, suffix='', what=''):
+        """got: dict name -> array for TSC, CC, TAC, TPC, DC, TAchC, TchC and 'S' (five sums)."""
+        for nm in ('TSC', 'CC', 'TAC', 'DC'):
+            self.versus_oracle(nm + suffix, got[nm], nm, self.mech_mono, what=what)
+        self.versus_oracle('TPC' + suffix, got['TPC'], 'TPC',
+                           [m for m in self.mech_mono if m == 'mirror-zero-seidel'], what=what)
+        for nm in ('TAchC', 'TchC'):
+            self.versus_oracle(nm + suffix, got[nm], nm, self.mech_col, what=what)
+        self.versus_oracle('seidel-sums' + suffix, got['S'], 'S', self.mech_mono, skey='scale_S', what=what)
+
+
 def check_case(case, rec):
     from optiland.optimization.operand.aberration import AberrationOperand as AO
     if case['kind'] == 'sample':
@@ -154,23 +218,13 @@ def check_case(case, rec):
     inp = lib_inputs(lens)
     N = len(inp['c'])
     K = N - 2                                   # optical surfaces
-    o = SE.surface_terms(**inp)
-    ol = SE.surface_terms(**inp, dtype=np.longdouble)
-
-    # ---- class flags: which known-defect mechanisms could act on this lens --------------------
-    has_mirror = any(inp['mirror'])
-    dispersive = bool(np.any(inp['dn'] != 0))
-    # a dispersive interface (Delta(dn/n) != 0) other than the first surface of an infinite-object lens:
-    # only there can the height of the previous record differ from the height at the surface
-    ddn = inp['dn'][1:-1] / inp['n'][1:-1] - inp['dn'][:-2] / inp['n'][:-2]
     axial_only = max(abs(float(f[0])) for f in spec['fields']) == 0.0
-    mech_mono = [m for m, on in (('mirror-zero-seidel', has_mirror), ('zero-field-invariant-guard', axial_only)) if on]
     finite = not math.isinf(L.fnum(spec['obj_t']))
-    slip = bool(np.any(ddn[1:] != 0) or (finite and ddn[0] != 0))
-    mech_col = [m for m, on in (('mirror-zero-seidel', has_mirror), ('chromatic-height-index-slip', slip)) if on]
-    rec.cls(*[f'mech-{m}' for m in sorted(set(mech_mono + mech_col))])
-    rec.cls('dispersive' if dispersive else 'no-dispersion', 'axial-field-only' if axial_only else 'off-axis-field')
-    if dispersive and len(spec['wavelengths']) >= 2:
+    J = Judge(rec, inp, axial_only, finite)
+    o, mech_mono, asbuilt = J.o, J.mech_mono, J.asbuilt
+    rec.cls(*[f'mech-{m}' for m in sorted(set(J.mech_mono + J.mech_col))])
+    rec.cls('dispersive' if J.dispersive else 'no-dispersion', 'axial-field-only' if axial_only else 'off-axis-field')
+    if J.dispersive and len(spec['wavelengths']) >= 2:
         rec.cls('dispersive-and-polychromatic')
     if abs(inp['n'][0] - 1.0) > 1e-9:
         rec.cls('object-space-immersed')
@@ -185,38 +239,6 @@ def check_case(case, rec):
         rec.nontrivial_case()
 
     ab = lens.aberrations
-    asbuilt_cache = {}
-
-    def asbuilt(sub):
-        key = tuple(sorted(sub))
-        if key not in asbuilt_cache:
-            asbuilt_cache[key] = SE.surface_terms(**inp, model=tuple(MECH[m] for m in key))
-        return asbuilt_cache[key]
-
-    def versus_oracle(clause, got, key, mechs, skey=None):
-        """library value vs oracle; a mismatch is keyed by the smallest set of applicable known
-        mechanisms whose as-built prediction reproduces the library's numbers."""
-        skey = skey or 'scale_' + key
-        want = _arr(o[key])
-        floor = max(1e-300, 1e-13 * float(np.max(o[skey])) if np.size(o[skey]) else 1e-300)
-        scale = np.maximum(_arr(o[skey]), floor)
-        cond = float(np.max(np.abs(_arr(o[key]) - _arr(ol[key])) / scale))
-        tol = 1e-9 + 1e3 * cond
-        got = _arr(got)
-        r, same = rec.resid(got, want, scale)
-        alt, flags = None, ()
-        if not (same and r <= tol) and mechs:
-            flags = tuple(mechs)
-            alt = _arr(asbuilt(mechs)[key])
-            for sub in _subsets(mechs):
-                cand = _arr(asbuilt(sub)[key])
-                ra, sa = rec.resid(got, cand, scale)
-                if sa and ra <= tol:
-                    alt, flags = cand, tuple(sub)
-                    break
-        rec.close(clause, got, want, tol, scale=scale, alt=alt, flags=flags,
-                  msg=f'{clause}: library value differs from the classical surface contributions (Welford) '
-                      f'evaluated on the lens\'s own rays')
 
     # ---- the all-in-one call and every accessor ------------------------------------------------
     third = ab.third_order()
@@ -225,12 +247,7 @@ def check_case(case, rec):
     acc = {nm: _arr(getattr(ab, nm)()) for nm in NAMES}
     acc['S'] = _arr(ab.seidels())
 
-    for nm in ('TSC', 'CC', 'TAC', 'DC'):
-        versus_oracle(nm, acc[nm], nm, mech_mono)
-    versus_oracle('TPC', acc['TPC'], 'TPC', [m for m in mech_mono if m == 'mirror-zero-seidel'])
-    for nm in ('TAchC', 'TchC'):
-        versus_oracle(nm, acc[nm], nm, mech_col)
-    versus_oracle('seidel-sums', acc['S'], 'S', mech_mono, skey='scale_S')
+    J.compare_all(acc)
     rec.event('surface_terms_compared', 7 * K + 5)
 
     # oracle self-check: the three forms of S_V agree where |A| is not small (harness integrity)
